@@ -63,10 +63,16 @@ class Scn:
                 "inject": INJECT[self.inject]}
 
 
+def invs_for(scn):
+    """OfferOrder (zero jitter: deliveries preserve offer order) is required wherever no queued message has a zero
+    transmission time; with TxFast it fails through finding F-C07-2 and is checked separately by C07."""
+    return INVS + ("" if scn.tx == "TxFast" else " OfferOrder")
+
+
 def run_scn(v, wd, prop, scn, mc=True, heap=False):
     consts = scn.constants()
     if mc:
-        r = tlc("MC_Net", f"CONSTANTS {consts}\nSPECIFICATION Spec\nINVARIANTS {INVS}\nPROPERTIES TimeMonotone\nCHECK_DEADLOCK FALSE\n", wd)
+        r = tlc("MC_Net", f"CONSTANTS {consts}\nSPECIFICATION Spec\nINVARIANTS {invs_for(scn)}\nPROPERTIES TimeMonotone\nCHECK_DEADLOCK FALSE\n", wd)
         v.add_tlc(f"Net invariants [{scn.name}]", r, consts.replace("\n", " "))
         if r.violation:
             v.spec_violation(f"Net[{scn.name}]", r)
@@ -186,7 +192,7 @@ def run_random(v, wd, prop, scn, count, tag):
         with open(os.path.join(cwd, mod + ".tla"), "w") as fh:
             fh.write(f"---- MODULE {mod} ----\nEXTENDS MC_Net, Json\nScenarios == <<\n" + ",\n".join(tla(x) for x in chunks[ci]) + "\n>>\n"
                      f'Emit == (phase = "done") => PrintT(<<"REPLAY", ToJson([k |-> scn + {ci * CH}, log |-> log, err |-> err, endfail |-> EndFail, tend |-> now, dead |-> dead])>>)\n====\n')
-        return tlc(mod, f"CONSTANTS {scn.constants()}\nSPECIFICATION Spec\nINVARIANTS {INVS} Emit\nCHECK_DEADLOCK FALSE\n", cwd,
+        return tlc(mod, f"CONSTANTS {scn.constants()}\nSPECIFICATION Spec\nINVARIANTS {invs_for(scn)} Emit\nCHECK_DEADLOCK FALSE\n", cwd,
                    workers=2, printed_to=os.path.join(cwd, "out.txt"))
     from concurrent.futures import ThreadPoolExecutor
     t0 = time.time()
@@ -288,6 +294,18 @@ def c07(tier):
     for s in fam:
         run_scn(v, wd, "C07", s)
     random_families(v, wd, "C07", tier)
+    # "with zero jitter deliveries preserve offer order" on the channel whose small messages have a transmission time that
+    # rounds to zero: the interpreter (which the real simulation reproduces, see the fast_* families above) breaks it when
+    # the un-busy notification starts queued zero-time messages at the very instant the previous message leaves (F-C07-2)
+    fq = next(s for s in fam if s.name == "fast_queue")
+    r = tlc("MC_Net", f"CONSTANTS {fq.constants()}\nSPECIFICATION Spec\nINVARIANTS OfferOrder\nCHECK_DEADLOCK FALSE\n", wd)
+    v.add_tlc("Net: OfferOrder [fast_queue]", r, fq.constants().replace("\n", " "))
+    if r.violation:
+        v.add_violation("deliveries do not preserve offer order on a zero-jitter channel: a queued message whose transmission time rounds to zero "
+                        "is started by the un-busy notification at the instant the previous message leaves the channel and overtakes it "
+                        "(TLC counterexample to OfferOrder in Net.tla; the real simulation reproduces the interpreter's log in the fast_queue family)",
+                        {"tlc_counterexample": r.tail[-3000:]},
+                        {"suite": "net", "offer_order": True, "queued_message_with_zero_transmission_time": True})
     v.cov["rule"] = ("sender scripts chosen by TLC from a 7-entry menu (bursts of 1-3 messages of 3 sizes in one handler, gaps smaller / equal "
                      "/ larger than the transmission time via self-scheduled re-sends, delayed sends) against channels with Drop, "
                      "Queue(None), Queue(128), Queue(0), bitrate 0, and a bitrate so high that small messages have a zero transmission "
